@@ -41,15 +41,18 @@ VENDORS = {"huawei": ("undo", ("quit",)), "cisco": ("no", ("exit",))}
 HEADS = ["a", "b", "c", "d", "interface", "x"]
 
 
-def rulebook(depth=3):
+def rulebook(depth=3, prefix=None):
     """default-logic rulebook knowing every row of the alphabet at every level; keys capture the whole row, so the
-    removal command of a row is exactly its negation (the property's clause (a) is about such rulebooks)"""
+    removal command of a row is exactly its negation (the property's clause (a) is about such rulebooks).  With
+    `prefix`, rows written in negated form ('undo a 1', as a generator may yield them) are known too."""
     if depth == 0:
         return []
     out = []
     for w in HEADS:
-        out.append(Rule(w + " ~", rulebook(depth - 1)))
-        out.append(Rule(w, rulebook(depth - 1)))
+        out.append(Rule(w + " ~", rulebook(depth - 1, prefix)))
+        out.append(Rule(w, rulebook(depth - 1, prefix)))
+    if prefix:
+        out.append(Rule(prefix + " ~"))
     return out
 
 
@@ -86,7 +89,7 @@ _rb_cache = {}
 def compiled_rb(vendor):
     if vendor not in _rb_cache:
         from checks.c01_converge import compile_rb
-        rules = rulebook()
+        rules = rulebook(prefix=VENDORS[vendor][0])
         _rb_cache[vendor] = (compile_rb(rules, vendor)[0], refrb.top_level(rules))
     return _rb_cache[vendor]
 
@@ -229,6 +232,22 @@ def run_block(block, ctx):
     fs = [f for f in mcenum.forests(rows, 3, 3)]
     # thorough: the full 3x3-node product for huawei, (3,2) for the second vendor
     fs_new = fs if (ctx.tier == "thorough" and vendor == "huawei") else [f for f in mcenum.forests(rows, 2, 3)]
+    # generator output may hold rows in negated form ('undo a 1'): the ACL drops them from `new` where every rule covering
+    # them is cant_delete, otherwise they become removal commands.  Old configs stay free of them.
+    base_rows = list(dict.fromkeys(r for r in rows if r != "x"))[:2]
+    neg_rows = [x for r in base_rows for x in (r, prefix + " " + r)]
+    neg_new = [f for f in mcenum.forests(neg_rows, 2, 2) if any(r.startswith(prefix + " ") for r, _ in f) or any(r.startswith(prefix + " ") for _, ch in f for r, _ in ch)]
+    neg_old = [f for f in mcenum.forests(base_rows + ["x"], 2, 2)]
+    for old in neg_old:
+        for new in neg_new:
+            if ctx.expired():
+                return
+            n, interesting = judge(vendor, level, compiled, text, old, new, report)
+            done.append((old, new))
+            ctx.evals += 1
+            ctx.states += 1
+            ctx.nontrivial += int(bool(n))
+            ctx.outcomes["negated-rows-in-new:cmds=%s" % (n if n < 3 else "3+")] += 1
     for old in fs:
         if ctx.expired():
             return
